@@ -122,8 +122,9 @@ func goArrayDefineOwnProperty(obj *object, name string, descriptor property, thr
 		return obj.runtime.typeErrorResult(throw)
 	} else if index := stringToArrayIndex(name); index >= 0 {
 		goObj := obj.value.(*goArrayObject)
-		if goObj.writable {
-			if obj.value.(*goArrayObject).setValue(index, descriptor.value.(Value)) {
+		// An accessor, or attributes without a value: a Go array holds plain values.
+		if value, ok := descriptor.value.(Value); ok && goObj.writable {
+			if obj.value.(*goArrayObject).setValue(index, value) {
 				return true
 			}
 		}
